@@ -18,6 +18,12 @@ class FakeRandom:
         out = []
         for _ in range(k):
             j = (self.picks.pop() % len(pop)) if self.picks else 0
+            # branch on the (possibly symbolic) pick so that the index, and hence the lists built from
+            # it, are concrete on each path
+            for cand in range(len(pop)):
+                if j == cand:
+                    j = cand
+                    break
             out.append(pop.pop(j))
         return out
 
